@@ -1,9 +1,134 @@
 package drv
 
 import (
+	"bytes"
+	"encoding/hex"
 	"encoding/json"
+	"fmt"
 	"os"
+	"os/exec"
+	"path/filepath"
+	"sort"
+	"strconv"
+	"strings"
+	"time"
+
+	"govc/smt"
+	"govc/spec"
+	"govc/sx"
+	"govc/sym"
 )
+
+// Replay of a counterexample on the real code (DESIGN 7.1):
+//  1. the values of the function's parameters, of the witness predicate and of every pre-state cell read on the path
+//     are taken from the solver's model (kept in the replay file);
+//  2. a scratch copy of the working tree gets a generated wrapper file in the contract package (exported wrapper for an
+//     unexported function, raw storage seeding) and a generated neotest test that deploys the contract with the
+//     repository's own helpers, seeds the cells, signs according to the model, invokes the function with the real
+//     neo-go compiler and VM, and dumps result, notifications and the whole storage before and after;
+//  3. the violated clause is evaluated on (model inputs, observed outputs) as a ground solver query, using the model's
+//     witnesses for the clause's universally quantified variables. Only if the clause is refuted on the observation is
+//     the violation `confirmed`.
+
+type replayCase struct {
+	Property    string            `json:"property"`
+	Obligation  string            `json:"obligation"`
+	Module      string            `json:"module"`
+	Func        string            `json:"func"`
+	Clause      string            `json:"clause"`
+	File        string            `json:"file"`
+	Params      []sym.ParamInfo   `json:"params"`
+	Results     []string          `json:"results"`
+	Exported    bool              `json:"exported"`
+	Recv        bool              `json:"recv"`
+	Model       map[string]string `json:"model"`
+	GoalSkolems []smt.SkInfo      `json:"goal_skolems"`
+}
+
+// deploy snippets: Go statements that leave a *neotest.ContractInvoker `c` for the contract of the package
+var deploySnippets = map[string]string{
+	"balance": `e := newExecutor(t)
+	deployDefaultNNS(t, e)
+	deployNetmapContract(t, e)
+	c := e.CommitteeInvoker(deployBalanceContract(t, e, util.Uint160{}, util.Uint160{}))`,
+	"netmap":     `c := newNetmapInvoker(t)`,
+	"container":  `c, _, _ := newContainerInvoker(t, false)`,
+	"nns":        `c := newNNSInvoker(t, false)`,
+	"reputation": `c := newReputationInvoker(t)`,
+	"neofsid":    `c := newNeoFSIDInvoker(t)`,
+	"neofs":      `c, _, _ := newNeoFSInvoker(t, 1)`,
+	"proxy":      `c := newProxyInvoker(t)`,
+}
+
+func decodeSMTString(lit string) ([]byte, bool) {
+	if len(lit) < 2 || lit[0] != '"' {
+		return nil, false
+	}
+	s := lit[1 : len(lit)-1]
+	var out []byte
+	for i := 0; i < len(s); {
+		switch {
+		case strings.HasPrefix(s[i:], `""`):
+			out = append(out, '"')
+			i += 2
+		case strings.HasPrefix(s[i:], `\u{`):
+			j := strings.IndexByte(s[i:], '}')
+			if j < 0 {
+				return nil, false
+			}
+			v, err := strconv.ParseUint(s[i+3:i+j], 16, 32)
+			if err != nil || v > 255 {
+				return nil, false
+			}
+			out = append(out, byte(v))
+			i += j + 1
+		default:
+			out = append(out, s[i])
+			i++
+		}
+	}
+	return out, true
+}
+
+func intOfTerm(t *sx.T) (string, bool) {
+	if t.IsAtom() {
+		if _, err := strconv.ParseInt(t.A, 10, 64); err == nil {
+			return t.A, true
+		}
+		return "", false
+	}
+	if t.Head() == "-" && len(t.L) == 2 {
+		if v, ok := intOfTerm(t.L[1]); ok {
+			return "-" + v, true
+		}
+	}
+	return "", false
+}
+
+type rarg struct {
+	Name, Kind string // int | bool | bytes
+	Int        string
+	Bool       bool
+	Bytes      []byte
+	Nil        bool
+}
+
+type rcell struct {
+	Key    []byte
+	Absent bool
+	Raw    []byte
+}
+
+func setReplayStatus(path string, rc map[string]any, status, note string, extra map[string]any) (string, string) {
+	m := map[string]any{"status": status, "note": note}
+	for k, v := range extra {
+		m[k] = v
+	}
+	rc["replay"] = m
+	out, _ := json.MarshalIndent(rc, "", " ")
+	os.WriteFile(path, append(out, '\n'), 0o644)
+	return status, note
+}
 
 // Replay re-runs a replay case on the real code. Status: confirmed | not-reproduced | not-attempted.
 func Replay(opt Options, path string) (string, string) {
@@ -15,9 +140,535 @@ func Replay(opt Options, path string) (string, string) {
 	if err := json.Unmarshal(b, &rc); err != nil {
 		return "not-attempted", err.Error()
 	}
-	status, note := "not-attempted", "no replay generator for this obligation kind yet"
-	rc["replay"] = map[string]any{"status": status, "note": note}
-	out, _ := json.MarshalIndent(rc, "", " ")
-	os.WriteFile(path, append(out, '\n'), 0o644)
-	return status, note
+	var c replayCase
+	json.Unmarshal(b, &c)
+	fail := func(why string) (string, string) { return setReplayStatus(path, rc, "not-attempted", why, nil) }
+	if c.Model == nil {
+		return fail("the solver gave no counterexample (unknown/timeout or a quantified failure)")
+	}
+	if !strings.HasPrefix(c.File, "contracts/") {
+		return fail("replay is generated for functions of the contract packages only (" + c.File + ")")
+	}
+	pkgName := strings.Split(c.File, "/")[1]
+	snippet, ok := deploySnippets[pkgName]
+	if !ok {
+		return fail("no deployment recipe for contract " + pkgName)
+	}
+	goal := c.Obligation[strings.LastIndex(c.Obligation, "#")+1:]
+	kind := kindOf(c.Obligation)
+	if kind != "ensures" && kind != "inv" && kind != "witness" && kind != "safe" {
+		return fail("obligation " + goal + " is a step of a modular proof (loop invariant, call precondition, frame): its counterexample starts from an arbitrary state satisfying the invariant and is not an input of an exported method")
+	}
+	if strings.Contains(goal, ".except.") {
+		return fail("restricted form of a known finding")
+	}
+	val := func(term string) (*sx.T, bool) {
+		v, ok := c.Model[term]
+		if !ok {
+			return nil, false
+		}
+		ts, err := sx.Parse(v)
+		if err != nil || len(ts) != 1 {
+			return nil, false
+		}
+		return ts[0], true
+	}
+	// ---- parameters -------------------------------------------------------------------------------
+	var args []rarg
+	for _, p := range c.Params {
+		if p.Term == "" || !strings.HasPrefix(p.Term, "p_") {
+			continue
+		}
+		v, ok := val(p.Term)
+		a := rarg{Name: p.Name}
+		switch p.Sort {
+		case "Int":
+			a.Kind = "int"
+			a.Int = "0"
+			if ok {
+				if iv, ok2 := intOfTerm(v); ok2 {
+					a.Int = iv
+				} else {
+					return fail("parameter " + p.Name + ": integer value outside int64")
+				}
+			}
+		case "Bool":
+			a.Kind = "bool"
+			a.Bool = ok && v.A == "true"
+		case "NB":
+			a.Kind = "bytes"
+			a.Nil = true
+			if ok && v.Head() == "mkNB" && v.L[1].A != "true" {
+				bs, ok2 := decodeSMTString(v.L[2].A)
+				if !ok2 {
+					return fail("parameter " + p.Name + ": value is not a byte string")
+				}
+				a.Bytes, a.Nil = bs, false
+			}
+		default:
+			return fail("parameter " + p.Name + " has sort " + p.Sort + " (lists and structs are not generated yet)")
+		}
+		args = append(args, a)
+	}
+	// ---- pre-state cells read on the path -----------------------------------------------------------------
+	var cells []rcell
+	for term, v := range c.Model {
+		if !strings.HasPrefix(term, "(select store0 ") {
+			continue
+		}
+		keyTerm := term[len("(select store0 ") : len(term)-1]
+		var key []byte
+		if strings.HasPrefix(keyTerm, `"`) {
+			k, ok := decodeSMTString(keyTerm)
+			if !ok {
+				continue
+			}
+			key = k
+		} else if kv, ok := val(keyTerm); ok && kv.IsAtom() {
+			k, ok := decodeSMTString(kv.A)
+			if !ok {
+				continue
+			}
+			key = k
+		} else {
+			continue
+		}
+		cl := rcell{Key: key}
+		pv, err := sx.Parse(v)
+		if err != nil || len(pv) != 1 {
+			continue
+		}
+		if pv[0].IsAtom() && pv[0].A == "None" {
+			cl.Absent = true
+		} else if pv[0].Head() == "Some" {
+			raw, ok := decodeSMTString(pv[0].L[1].A)
+			if !ok {
+				continue
+			}
+			cl.Raw = raw
+		} else {
+			continue
+		}
+		dup := false
+		for _, o := range cells {
+			if bytes.Equal(o.Key, cl.Key) {
+				dup = true
+			}
+		}
+		if !dup {
+			cells = append(cells, cl)
+		}
+	}
+	sort.Slice(cells, func(i, j int) bool { return bytes.Compare(cells[i].Key, cells[j].Key) < 0 })
+	// ---- witnesses ------------------------------------------------------------------------------------------
+	committee := false
+	witness := map[string]bool{} // hex of a 20-byte address or 33-byte key that must carry a witness
+	for term, v := range c.Model {
+		if !strings.HasPrefix(term, "(W ") || v != "true" && v != "false" {
+			if !(strings.Contains(term, "(W ") && strings.Contains(term, "contract_CreateMultisigAccount")) {
+				continue
+			}
+		}
+		if strings.Contains(term, "contract_CreateMultisigAccount") && strings.Contains(term, "(W ") {
+			if v == "true" {
+				committee = true // the test chain has a one-key committee: its 2/3+1 and majority accounts coincide
+			}
+			continue
+		}
+		inner := term[3 : len(term)-1]
+		var bs []byte
+		if strings.HasPrefix(inner, `"`) {
+			bs, _ = decodeSMTString(inner)
+		} else if av, ok := val(inner); ok && av.IsAtom() {
+			bs, _ = decodeSMTString(av.A)
+		}
+		if len(bs) == 20 || len(bs) == 33 {
+			witness[hex.EncodeToString(bs)] = v == "true"
+		}
+	}
+	var wit []string
+	for h, w := range witness {
+		if w {
+			wit = append(wit, h)
+		}
+	}
+	sort.Strings(wit)
+	// ---- scratch copy, wrapper, test -------------------------------------------------------------------------
+	scratch, err := os.MkdirTemp("", "govc-replay-")
+	if err != nil {
+		return fail(err.Error())
+	}
+	defer os.RemoveAll(scratch)
+	if out, err := exec.Command("rsync", "-a", "--exclude", ".git", opt.Root+"/", scratch+"/").CombinedOutput(); err != nil {
+		return fail("rsync: " + string(out))
+	}
+	fnName := c.Func[strings.Index(c.Func, ".")+1:]
+	method := strings.ToLower(fnName[:1]) + fnName[1:]
+	imports := map[string]bool{"github.com/nspcc-dev/neo-go/pkg/interop/storage": true}
+	wrapper := ""
+	if !c.Exported {
+		method = "verifCall"
+		var ps, as []string
+		for _, p := range c.Params {
+			switch {
+			case strings.HasSuffix(p.GoType, "storage.Context"):
+				as = append(as, "storage.GetContext()")
+			case p.Term != "" && !strings.HasPrefix(p.Term, "p_"):
+				continue // receiver bound to a package-level object
+			default:
+				gt := p.GoType
+				if strings.Contains(gt, "neo-go/pkg/interop.") {
+					imports["github.com/nspcc-dev/neo-go/pkg/interop"] = true
+					gt = strings.ReplaceAll(gt, "github.com/nspcc-dev/neo-go/pkg/interop.", "interop.")
+				}
+				if i := strings.LastIndex(gt, "/"); i >= 0 && strings.Contains(gt, ".") && !strings.HasPrefix(gt, "interop.") && !strings.HasPrefix(gt, "[]") {
+					// a named type of another package of the repository (nodestate.Type ...)
+					full := gt[:strings.LastIndex(gt, ".")]
+					imports[full] = true
+					gt = gt[i+1:]
+				}
+				ps = append(ps, p.Name+" "+gt)
+				as = append(as, p.Name)
+			}
+		}
+		call := fnName
+		if c.Recv {
+			parts := strings.SplitN(fnName, ".", 2)
+			call = strings.ToLower(parts[0]) + "." + parts[1] // package-level object named after its type (balance: token)
+		}
+		ret, body := "", fmt.Sprintf("%s(%s)", call, strings.Join(as, ", "))
+		switch len(c.Results) {
+		case 0:
+		case 1:
+			ret, body = " any", "return "+body
+		default:
+			ret = " []any"
+			var rs []string
+			for i := range c.Results {
+				rs = append(rs, fmt.Sprintf("r%d", i))
+			}
+			body = fmt.Sprintf("%s := %s\n\treturn []any{%s}", strings.Join(rs, ", "), body, strings.Join(rs, ", "))
+		}
+		wrapper = fmt.Sprintf("// VerifCall is generated by the verifier's replay (scratch copy only).\nfunc VerifCall(%s)%s {\n\t%s\n}\n", strings.Join(ps, ", "), ret, body)
+	}
+	var imp []string
+	for k := range imports {
+		imp = append(imp, fmt.Sprintf("\t%q", k))
+	}
+	sort.Strings(imp)
+	wrapSrc := fmt.Sprintf(`package %s
+
+import (
+%s
+)
+
+// VerifSeed writes one raw storage cell, VerifUnset removes one (scratch copy only).
+func VerifSeed(key []byte, value []byte) {
+	storage.Put(storage.GetContext(), key, value)
+}
+
+func VerifUnset(key []byte) {
+	storage.Delete(storage.GetContext(), key)
+}
+
+%s`, pkgName, strings.Join(imp, "\n"), wrapper)
+	os.WriteFile(filepath.Join(scratch, "contracts", pkgName, "zz_verif_wrap.go"), []byte(wrapSrc), 0o644)
+
+	var tb strings.Builder
+	tb.WriteString(`package tests
+
+import (
+	"bytes"
+	"encoding/hex"
+	"encoding/json"
+	"fmt"
+	"math/big"
+	"testing"
+
+	"github.com/nspcc-dev/neo-go/pkg/neotest"
+	"github.com/nspcc-dev/neo-go/pkg/util"
+	"github.com/nspcc-dev/neo-go/pkg/vm/stackitem"
+)
+
+var _ = big.NewInt
+var _ = util.Uint160{}
+var _ = bytes.Equal
+
+func verifItem(it stackitem.Item) string {
+	if it == nil {
+		return "null"
+	}
+	switch it.Type() {
+	case stackitem.AnyT:
+		return "null"
+	case stackitem.IntegerT:
+		bi, _ := it.TryInteger()
+		return "i:" + bi.String()
+	case stackitem.BooleanT:
+		b, _ := it.TryBool()
+		if b {
+			return "i:1"
+		}
+		return "i:0"
+	case stackitem.ByteArrayT, stackitem.BufferT:
+		b, _ := it.TryBytes()
+		return "b:" + hex.EncodeToString(b)
+	case stackitem.ArrayT, stackitem.StructT:
+		s := "["
+		for i, x := range it.Value().([]stackitem.Item) {
+			if i > 0 {
+				s += ","
+			}
+			s += verifItem(x)
+		}
+		return s + "]"
+	}
+	return "?"
+}
+
+func TestVerifReplay(t *testing.T) {
+	`)
+	tb.WriteString(snippet + "\n")
+	tb.WriteString(`	vex := c.Executor
+	id := vex.Chain.GetContractState(c.Hash).ID
+	unhex := func(s string) []byte { b, _ := hex.DecodeString(s); return b }
+	// model addresses / keys that must carry a witness are renamed to real accounts
+	type ren struct{ from, to []byte }
+	var rens []ren
+	var signers []neotest.Signer
+`)
+	for _, h := range wit {
+		bs, _ := hex.DecodeString(h)
+		if len(bs) == 20 {
+			fmt.Fprintf(&tb, "\t{\n\t\tacc := c.NewAccount(t)\n\t\trens = append(rens, ren{unhex(%q), acc.ScriptHash().BytesBE()})\n\t\tsigners = append(signers, acc)\n\t}\n", h)
+		} else {
+			fmt.Fprintf(&tb, "\t{\n\t\tacc := c.NewAccount(t)\n\t\trens = append(rens, ren{unhex(%q), acc.(neotest.SingleSigner).Account().PublicKey().Bytes()})\n\t\tsigners = append(signers, acc)\n\t}\n", h)
+		}
+	}
+	tb.WriteString(`	rn := func(b []byte) []byte {
+		for _, r := range rens {
+			b = bytes.ReplaceAll(b, r.from, r.to)
+		}
+		return b
+	}
+`)
+	for _, cl := range cells {
+		if cl.Absent {
+			fmt.Fprintf(&tb, "\tif vex.Chain.GetStorageItem(id, rn(unhex(%q))) != nil {\n\t\tc.Invoke(t, stackitem.Null{}, \"verifUnset\", rn(unhex(%q)))\n\t}\n", hex.EncodeToString(cl.Key), hex.EncodeToString(cl.Key))
+		} else {
+			fmt.Fprintf(&tb, "\tc.Invoke(t, stackitem.Null{}, \"verifSeed\", rn(unhex(%q)), rn(unhex(%q)))\n", hex.EncodeToString(cl.Key), hex.EncodeToString(cl.Raw))
+		}
+	}
+	if committee {
+		tb.WriteString("\tsigners = append([]neotest.Signer{vex.Committee}, signers...)\n")
+	}
+	tb.WriteString("\tif len(signers) == 0 {\n\t\tsigners = append(signers, c.NewAccount(t)) // somebody has to pay; carries no relevant witness\n\t}\n")
+	var call []string
+	for _, a := range args {
+		switch a.Kind {
+		case "int":
+			call = append(call, fmt.Sprintf("big.NewInt(%s)", a.Int))
+		case "bool":
+			call = append(call, fmt.Sprint(a.Bool))
+		case "bytes":
+			if a.Nil {
+				call = append(call, "nil")
+			} else {
+				call = append(call, fmt.Sprintf("rn(unhex(%q))", hex.EncodeToString(a.Bytes)))
+			}
+		}
+	}
+	tb.WriteString(`	dump := func() map[string]string {
+		m := map[string]string{}
+		vex.Chain.SeekStorage(id, []byte{}, func(k, v []byte) bool {
+			m[hex.EncodeToString(k)] = hex.EncodeToString(v)
+			return true
+		})
+		return m
+	}
+	pre := dump()
+`)
+	fmt.Fprintf(&tb, "\ttx := c.WithSigners(signers...).PrepareInvoke(t, %q%s)\n", method, func() string {
+		if len(call) == 0 {
+			return ""
+		}
+		return ", " + strings.Join(call, ", ")
+	}())
+	tb.WriteString(`	vex.AddNewBlock(t, tx)
+	aer := vex.GetTxExecResult(t, tx.Hash())
+	out := map[string]any{"state": aer.VMState.String(), "fault": aer.FaultException, "pre": pre, "post": dump()}
+	if len(aer.Stack) > 0 {
+		out["result"] = verifItem(aer.Stack[0])
+	}
+	var evs []map[string]any
+	for _, ev := range aer.Events {
+		if ev.ScriptHash != c.Hash {
+			continue
+		}
+		var as []string
+		for _, it := range ev.Item.Value().([]stackitem.Item) {
+			as = append(as, verifItem(it))
+		}
+		evs = append(evs, map[string]any{"name": ev.Name, "args": as})
+	}
+	out["events"] = evs
+	rr := map[string]string{}
+	for _, r := range rens {
+		rr[hex.EncodeToString(r.from)] = hex.EncodeToString(r.to)
+	}
+	out["renamed"] = rr
+	var argsHex []string
+`)
+	for _, a := range args {
+		if a.Kind == "bytes" && !a.Nil {
+			fmt.Fprintf(&tb, "\targsHex = append(argsHex, hex.EncodeToString(rn(unhex(%q))))\n", hex.EncodeToString(a.Bytes))
+		} else {
+			tb.WriteString("\targsHex = append(argsHex, \"\")\n")
+		}
+	}
+	tb.WriteString(`	out["args"] = argsHex
+	j, _ := json.Marshal(out)
+	fmt.Println("REPLAY-RESULT " + string(j))
+}
+`)
+	testSrc := tb.String()
+	os.WriteFile(filepath.Join(scratch, "tests", "zz_verif_replay_test.go"), []byte(testSrc), 0o644)
+	genPath := strings.TrimSuffix(path, ".json") + ".replay_test.go.txt"
+	os.WriteFile(genPath, []byte(testSrc+"\n/* generated wrapper (contracts/"+pkgName+"/zz_verif_wrap.go):\n"+wrapSrc+"*/\n"), 0o644)
+	t0 := time.Now()
+	cmd := exec.Command("go", "test", "-vet=off", "-count=1", "-timeout", "120s", "-run", "^TestVerifReplay$", "-v", ".")
+	cmd.Dir = filepath.Join(scratch, "tests")
+	cmd.Env = append(os.Environ(), "GOFLAGS=-mod=mod", "GOPROXY=off", "GOSUMDB=off", "GOTOOLCHAIN=local")
+	outB, _ := cmd.CombinedOutput()
+	resLine := ""
+	for _, ln := range strings.Split(string(outB), "\n") {
+		if i := strings.Index(ln, "REPLAY-RESULT "); i >= 0 {
+			resLine = ln[i+len("REPLAY-RESULT "):]
+		}
+	}
+	extra := map[string]any{"generated_test": filepath.Base(genPath), "seconds": round2(time.Since(t0).Seconds())}
+	if resLine == "" {
+		tail := strings.Split(strings.TrimSpace(string(outB)), "\n")
+		var keep []string
+		for _, l := range tail {
+			if !strings.Contains(l, "logger.go") {
+				keep = append(keep, l)
+			}
+		}
+		if len(keep) > 12 {
+			keep = keep[len(keep)-12:]
+		}
+		extra["test_output"] = keep
+		return setReplayStatus(path, rc, "not-reproduced", "the real code could not be run on this counterexample (the generated test did not reach the invocation: seeding or deployment failed)", extra)
+	}
+	var obs observation
+	json.Unmarshal([]byte(resLine), &obs)
+	extra["observation"] = json.RawMessage(resLine)
+	if obs.State != "HALT" {
+		return setReplayStatus(path, rc, "not-reproduced", "on the real VM this input faults ("+obs.Fault+"): the transaction is reverted, no postcondition is owed (A1)", extra)
+	}
+	verdict, note := evalOnObservation(opt, &c, args, cells, &obs, committee, witness)
+	return setReplayStatus(path, rc, verdict, note, extra)
+}
+
+type observation struct {
+	State, Fault, Result string
+	Pre, Post            map[string]string
+	Events               []struct {
+		Name string
+		Args []string
+	}
+	Renamed map[string]string
+	Args    []string
+}
+
+// evalOnObservation evaluates the violated clause on (model inputs, observed outputs).
+func evalOnObservation(opt Options, c *replayCase, args []rarg, cells []rcell, obs *observation, committee bool, witness map[string]bool) (string, string) {
+	all, err := Scan(opt.Root)
+	if err != nil {
+		return "not-reproduced", "contracts cannot be read: " + err.Error()
+	}
+	var mod *Module
+	modIdent := c.Obligation[:strings.Index(c.Obligation, ":")]
+	for _, m := range all {
+		if m.Name == c.Module || (m.Spec.Module == modIdent && strings.HasPrefix(c.File, strings.TrimPrefix(m.PkgRel, "./"))) {
+			mod = m
+		}
+	}
+	if mod == nil {
+		return "not-reproduced", "module of the obligation not found"
+	}
+	pkgs, err := Load(opt.Root, []string{mod.PkgRel, "./common"})
+	if err != nil {
+		return "not-reproduced", err.Error()
+	}
+	target := pkgByRel(pkgs, mod.PkgRel)
+	e := sym.New(pkgs)
+	e.Specs[target.PkgPath] = mod.Spec
+	goal := c.Obligation[strings.LastIndex(c.Obligation, "#")+1:]
+	fnKey := c.Func[strings.Index(c.Func, ".")+1:]
+	rename := func(b []byte) []byte {
+		for from, to := range obs.Renamed {
+			fb, _ := hex.DecodeString(from)
+			tb, _ := hex.DecodeString(to)
+			b = bytes.ReplaceAll(b, fb, tb)
+		}
+		return b
+	}
+	params := map[string]spec.TV{}
+	for _, a := range args {
+		switch a.Kind {
+		case "int":
+			params[a.Name] = spec.TV{T: sx.IntS(a.Int), Ty: spec.Type{K: spec.KInt}}
+		case "bool":
+			params[a.Name] = spec.TV{T: sx.Bool(a.Bool), Ty: spec.Type{K: spec.KBool}}
+		case "bytes":
+			if a.Nil {
+				params[a.Name] = spec.TV{T: spec.NilNB, Ty: spec.Type{K: spec.KNB}}
+			} else {
+				params[a.Name] = spec.TV{T: spec.MkNB(sx.Str(string(rename(a.Bytes)))), Ty: spec.Type{K: spec.KNB}}
+			}
+		}
+	}
+	dumpToCells := func(m map[string]string) []sym.RawCell {
+		var keys []string
+		for k := range m {
+			keys = append(keys, k)
+		}
+		sort.Strings(keys)
+		var out []sym.RawCell
+		for _, k := range keys {
+			kb, _ := hex.DecodeString(k)
+			vb, _ := hex.DecodeString(m[k])
+			out = append(out, sym.RawCell{Key: string(kb), Raw: string(vb)})
+		}
+		return out
+	}
+	var events []sym.RawEvent
+	for _, ev := range obs.Events {
+		events = append(events, sym.RawEvent{Name: ev.Name, Args: ev.Args})
+	}
+	var wits []sym.RawWitness
+	for h, w := range witness {
+		b, _ := hex.DecodeString(h)
+		wits = append(wits, sym.RawWitness{Bytes: string(rename(b)), Holds: w})
+	}
+	var skVals []sym.SkolemValue
+	for _, sk := range c.GoalSkolems {
+		if v, ok := c.Model[sk.Name]; ok {
+			skVals = append(skVals, sym.SkolemValue{Var: sk.Var, Sort: sk.Sort, Value: v})
+		}
+	}
+	q, err := e.EvalOnObservation(target.PkgPath, fnKey, goal, params, obs.Result, dumpToCells(obs.Pre), dumpToCells(obs.Post), events, wits, committee, skVals, obs.Renamed)
+	if err != nil {
+		return "not-reproduced", "the clause cannot be evaluated on the observation: " + err.Error()
+	}
+	res := smt.Check(q, smt.Options{Timeout: 30 * time.Second, QuantTimeout: 10 * time.Second})
+	switch res.Status {
+	case "unsat":
+		return "confirmed", "the real code (compiled with the neo-go compiler, run in the NeoVM) was run on the counterexample and HALTed; the clause evaluated on the observed result, storage and notifications is refuted (" + res.Solver + ")"
+	case "sat":
+		return "not-reproduced", "on the real VM this input halts and the observed execution does not refute the clause with the model's witnesses (the counterexample depends on an abstraction: callee contract, loop cut or unconstrained cell)"
+	}
+	return "not-reproduced", "the clause could not be decided on the observation (" + res.Status + ")"
 }
